@@ -23,9 +23,32 @@ Theorem C12_same_signed_same_content : forall sch b j1 j2,
 Proof. exact same_signed_same_content. Qed.
 Print Assumptions C12_same_signed_same_content.
 
-(* and the canonical form determines the content, member by member: canonical texts are
-   self-delimiting, hence two objects with the same canonical form have the same sorted table of
-   (member name, canonical form of the member's value) *)
+(* the canonical form determines the value up to the order of members (and the resolution of
+   duplicate members, last one wins), at every depth: [jnorm] sorts members recursively *)
+Theorem C12_canonical_form_determines_value : forall v1 v2 b,
+  canon_spec (fun s => s) v1 = Some b ->
+  (canon_spec (fun s => s) v2 = Some b <-> (jnorm v2 = jnorm v1 /\ canon_spec (fun s => s) v2 <> None)).
+Proof. exact canonical_form_determines_value. Qed.
+Print Assumptions C12_canonical_form_determines_value.
+
+(* so what the client uses is the signed value itself: two documents accepted over the same signed
+   bytes are used with the same content, member for member, unknown members included *)
+Theorem C12_same_signed_same_value : forall sch b j1 j2,
+  accepts sch b j1 = true -> accepts sch b j2 = true ->
+  exists r1 r2, project sch j1 = Some r1 /\ project sch j2 = Some r2 /\ jnorm r1 = jnorm r2.
+Proof. exact same_signed_same_value. Qed.
+Print Assumptions C12_same_signed_same_value.
+
+(* and any change to an accepted document that alters the retained value - value of a scalar,
+   member inserted, deleted or replaced, at any depth - makes it unacceptable *)
+Theorem C12_mutation_rejected : forall sch b j j' r r',
+  accepts sch b j = true -> project sch j = Some r -> project sch j' = Some r' ->
+  jnorm r' <> jnorm r -> accepts sch b j' = false.
+Proof. exact mutation_rejected. Qed.
+Print Assumptions C12_mutation_rejected.
+
+(* the underlying facts: canonical texts are self-delimiting, hence two objects with the same
+   canonical form have the same sorted table of (member name, canonical form of the value) *)
 Theorem C12_canonical_form_determines_members : forall m1 m2 es1 es2 b,
   canon_spec (fun s => s) (JObj m1) = Some b -> canon_spec (fun s => s) (JObj m2) = Some b ->
   spec_members (fun s => s) m1 = Some es1 -> spec_members (fun s => s) m2 = Some es2 ->
